@@ -384,3 +384,45 @@ Theorem C04_model_is_source_cli_args_train_model_world :
   = Cli.cli_train_model_cmd (Cli.introspect_of W) P construct L raw.
 Proof. exact C04SourceArgs.src_cli_train_model_cmd_world. Qed.
 Print Assumptions C04_model_is_source_cli_args_train_model_world.
+
+(* ---- the argparse option tables: get_parser() of train_model, re-read from /repo on every run by the fail-closed reader
+   harness/argparse_reader.py (Generated/SrcParser_<command>.v; a get_parser that is not a plain sequence of literal
+   parser.add_argument calls is refused and these theorems stop compiling).  What the argument records of Model/Cli.v assume of
+   the namespace parse_args() yields - the premise of the C??_model_is_source_cli_* links - is provided by the declared options:
+   Cli.declares = the attribute is the dest of EXACTLY ONE option, which stores the assumed kind of value and can be None exactly
+   where the record has an option type; Cli.dests_derived = the dest the reader computed is argparse's derivation from the flags;
+   Cli.dests_distinct = no dest and no flag is declared twice; Cli.seed_declared = --seed is an int option with a non-negative int
+   default (get_prng_from_seed_argument never sees None); Cli.coordinates_int = --n-chunks / --chunk-index / --n-chains /
+   --chain-index are int options that are never None; Cli.params_kv = every --*-param option accumulates through KVAppendAction;
+   Cli.fraction_declared = --holdout-fraction is a float option with a default in [0, 1]. ---- *)
+
+From Batchie Require Model.Cli Proofs.C18Parser Generated.SrcParser_train_model Proofs.C18SourceParser_train_model.
+Theorem C04_source_parser_train_model_fields :
+  forall f, In f (Cli.tm_fields ++ Cli.logging_fields) -> Cli.declares SrcParser_train_model.src_parser_train_model f.
+Proof. exact C18SourceParser_train_model.parser_train_model_fields. Qed.
+Print Assumptions C04_source_parser_train_model_fields.
+
+Theorem C04_source_parser_train_model_dests_derived :
+  Cli.dests_derived SrcParser_train_model.src_parser_train_model.
+Proof. exact C18SourceParser_train_model.parser_train_model_dests_derived. Qed.
+Print Assumptions C04_source_parser_train_model_dests_derived.
+
+Theorem C04_source_parser_train_model_dests_distinct :
+  Cli.dests_distinct SrcParser_train_model.src_parser_train_model.
+Proof. exact C18SourceParser_train_model.parser_train_model_dests_distinct. Qed.
+Print Assumptions C04_source_parser_train_model_dests_distinct.
+
+Theorem C04_source_parser_train_model_seed :
+  Cli.seed_declared SrcParser_train_model.src_parser_train_model.
+Proof. exact C18SourceParser_train_model.parser_train_model_seed. Qed.
+Print Assumptions C04_source_parser_train_model_seed.
+
+Theorem C04_source_parser_train_model_coordinates :
+  Cli.coordinates_int SrcParser_train_model.src_parser_train_model.
+Proof. exact C18SourceParser_train_model.parser_train_model_coordinates. Qed.
+Print Assumptions C04_source_parser_train_model_coordinates.
+
+Theorem C04_source_parser_train_model_params :
+  Cli.params_kv SrcParser_train_model.src_parser_train_model.
+Proof. exact C18SourceParser_train_model.parser_train_model_params. Qed.
+Print Assumptions C04_source_parser_train_model_params.
